@@ -306,7 +306,23 @@ pub async fn exec_c16(script: Value) -> ExecResult {
             advance(13_000).await;
             sim::count("probe.restart_from_snapshot", 1);
         }
-        // the old token expires on the simulated clock
+        // the old token expires on the simulated clock - while an SDK keeps using it over gRPC every two seconds on the node
+        // that issued it (where that node is not restarted meanwhile): continuous use must not carry it past its expiry
+        if situation == "single" || situation == "other_node" || situation == "leader_down" {
+            let srv_keep = grpc_server(&node(1).unwrap());
+            let mut served = 0u64;
+            while sim::now_us() / 1000 - t_old < ttl_ms + 2_000 {
+                let (pt, code, _) = grpc_call(&srv_keep, "ServiceListRequest", &[("accessToken", tok_old.as_str())]).await;
+                if !(pt == "ErrorResponse" && code == 403) {
+                    served += 1;
+                }
+                advance(2_000).await;
+            }
+            advance(1_000).await;
+            let (pt, code, body) = grpc_call(&srv_keep, "ServiceListRequest", &[("accessToken", tok_old.as_str())]).await;
+            vensure!(pt == "ErrorResponse" && code == 403, "C16.grpc_token_in_continuous_use_outlives_expiry", "a token used over gRPC every 2 s on node 1 ({} requests served) is still served {} ms after its expiry (ttl {} ms): {} {} {}", served, sim::now_us() / 1000 - t_old - ttl_ms, ttl_ms, pt, code, body.chars().take(120).collect::<String>());
+            sim::count("probe.grpc_token_polled_across_expiry", 1);
+        }
         let elapsed = sim::now_us() / 1000 - t_old;
         if elapsed < ttl_ms + 2_000 {
             advance(ttl_ms + 2_000 - elapsed).await;
